@@ -538,6 +538,19 @@ func doSelectRepoSet(shards []*rankedShard, and *query.And) ([]*rankedShard, que
 				return filtered, and
 			}
 
+			// BranchesRepos looks a branch up by its name, while a Branch query
+			// for "HEAD" selects the first branch of a repository whatever it is
+			// called. Only replace when both mean the same for every repository.
+			if c.List[0].Branch == "HEAD" {
+				for _, s := range filtered {
+					for _, repo := range s.repos {
+						if len(repo.Branches) == 0 || repo.Branches[0].Name != "HEAD" {
+							return filtered, and
+						}
+					}
+				}
+			}
+
 			// Every repo wants the same branches, so we can replace RepoBranches
 			// with a list of branch queries.
 			and.Children[i] = &query.Branch{Pattern: c.List[0].Branch, Exact: true}
